@@ -15,6 +15,66 @@ def base_files(rng, work, n):
         out.append(('gen%d' % i, c3dspec.encode(L, c)))
     return out
 
+def records(buf, zeros):
+    """(kind, gid, name, pos of the type byte, pos of the dimension bytes, their number, pos of the values) of the records of a
+    well-formed file, found by walking the chain"""
+    out = []
+    try:
+        paddr = buf[zeros]; p = zeros + (paddr - 1) * 512 + 4
+        while p + 2 < len(buf):
+            nl = buf[p]; nl = nl - 256 if nl >= 128 else nl
+            if nl == 0: break
+            gid = buf[p + 1]; gid = gid - 256 if gid >= 128 else gid
+            q = p + 2 + abs(nl); off = buf[q] | (buf[q + 1] << 8)
+            if gid > 0:
+                nd = buf[q + 3]; out.append(('P', gid, bytes(buf[p + 2:q]), q + 2, q + 4, nd, q + 4 + nd))
+            else: out.append(('G', -gid, bytes(buf[p + 2:q]), None, None, 0, None))
+            if off == 0: break
+            p = q + off
+    except IndexError: pass
+    return out
+
+def vocabulary_file(rng):
+    """a well-formed file whose extra groups carry the names other programs give a meaning to (TRIAL:ACTUAL_START_FIELD ...):
+    for this library they are parameters like any others, whatever their dimensions"""
+    c = filegen.make_content(rng, dict(nframes=2, npoints=2, nchan=1, nsub=2, dense_ids=True, order='canonical', big_record=False, empty_analog=False, nlabels=2, nalabels=1))
+    P = lambda gid, name, ty, dims, vals: ('P', gid, name, b'', 0, ty, dims, vals)
+    c['records'] = [r for r in c['records'] if not (r[0] == 'G' and r[2].startswith(b'EXTRA')) and r[1] in (1, 2)] + [
+        ('G', 3, b'TRIAL', b'', 0), P(3, b'ACTUAL_START_FIELD', 'I', [2], [1, 0]), P(3, b'ACTUAL_END_FIELD', 'I', [2], [2, 0]), P(3, b'CAMERA_RATE', 'F', [], ['42c80000']),
+        ('G', 4, b'EVENT', b'', 0), P(4, b'USED', 'I', [], [2]), P(4, b'CONTEXTS', 'C', [5, 2], [b'Left', b'Right']), P(4, b'LABELS', 'C', [4, 2], [b'FS', b'FO']),
+        P(4, b'TIMES', 'F', [2, 2], ['00000000', '3f800000', '00000000', '40000000']), P(4, b'GENERIC_FLAGS', 'B', [2], [1, 0]),
+        ('G', 5, b'SUBJECTS', b'', 0), P(5, b'USED', 'I', [], [1]), P(5, b'NAMES', 'C', [4, 1], [b'Anon']), P(5, b'LABEL_PREFIXES', 'C', [1, 1], [b'A']),
+        ('G', 6, b'FORCE_PLATFORM', b'', 0), P(6, b'USED', 'I', [], [1]), P(6, b'TYPE', 'I', [1], [2]), P(6, b'CORNERS', 'F', [3, 4, 1], ['3f800000'] * 12),
+        P(6, b'ORIGIN', 'F', [3, 1], ['00000000'] * 3), P(6, b'CHANNEL', 'I', [6, 1], [1, 1, 1, 1, 1, 1]), P(6, b'ZERO', 'I', [2], [1, 0]),
+        ('G', 7, b'MANUFACTURER', b'', 0), P(7, b'COMPANY', 'C', [5], [b'Vicon']), P(7, b'SOFTWARE', 'C', [5], [b'Nexus']), P(7, b'VERSION', 'I', [3], [2, 12, 0])]
+    return c3dspec.encode(dict(zeros=0, paddr=2, prologue_zeroed=False, end_by_zero_offset=False, strpad=b' ', extra_pad_blocks=0), c)
+
+def structural_damage(rng, buf, zeros, tier):
+    """field-aware corruption: the dimensions of one parameter all set to 0 / 1 / 0xff / 0x80 (the values stay where they are),
+    its type byte set to each type code, alone and together with POINT:FRAMES set to 0xffff / 0x8000 / 0"""
+    out = []; recs = records(buf, zeros)
+    frames = [r for r in recs if r[0] == 'P' and r[2] == b'FRAMES']
+    for k, r in enumerate(recs):
+        if r[0] != 'P': continue
+        muts = []
+        if r[5]:
+            for v in (0x00, 0x01, 0xff, 0x80):
+                muts.append(('dims=%02x' % v, [(r[4] + j, v) for j in range(r[5])]))
+            if r[5] >= 2: muts.append(('dims=ff,01', [(r[4], 0xff), (r[4] + 1, 0x01)]))
+        for tcode in (0xff, 0x01, 0x02, 0x04, 0x00, 0x03):
+            muts.append(('type=%02x' % tcode, [(r[3], tcode)]))
+        muts.append(('ndims+1', [(r[3] + 1, r[5] + 1)]))
+        for lab, edits in muts:
+            for fv in (None, 0xffff, 0x8000):
+                if fv is not None and (not frames or tier == 'quick' and k % 2): continue
+                b = bytearray(buf)
+                for o, v in edits:
+                    if o < len(b): b[o] = v
+                if fv is not None:
+                    fo = frames[0][6]; b[fo] = fv & 0xff; b[fo + 1] = fv >> 8
+                out.append(('struct:%s:%s%s' % (r[2].decode('latin-1'), lab, '' if fv is None else '+FRAMES=%04x' % fv), bytes(b)))
+    return out
+
 def damage(rng, name, buf, tier):
     """(label, bytes) : every truncation length (files <= 4 KB, stratified above), boundary overwrites at every offset of
     header and parameter section, double overwrites, structure-aware corruption of each field"""
@@ -49,12 +109,15 @@ def run(rep, work, rng, tier):
     shared = work.sub('shared')
     files = base_files(rng, work, 2 if tier == 'quick' else 8)
     cases = []; labels = {}; kinds = {}
-    for name, buf in files:
-        for k, (lab, b) in enumerate(damage(rng, name, buf, tier)):
+    damaged = [(name, buf, damage(rng, name, buf, tier) + structural_damage(rng, buf, buf.index(b'\x02') if buf[0] == 0 else 0, tier)) for name, buf in files]
+    vb = vocabulary_file(rng)
+    damaged.append(('vocab', vb, [('intact', vb)] + structural_damage(rng, vb, 0, tier)))
+    for name, buf, dmg in damaged:
+        for k, (lab, b) in enumerate(dmg):
             fn = '%s_%d.c3d' % (name, k); open(os.path.join(shared, fn), 'wb').write(b)
             cid = '%s_%d' % (name, k); labels[cid] = (name, lab, fn)
             cases.append((cid, ['loadx 0 ' + fn, 'snap 0']))
-            kinds[lab.split('@')[0].split('=')[0]] = kinds.get(lab.split('@')[0].split('=')[0], 0) + 1
+            kk = 'structural' if lab.startswith('struct') else lab.split('@')[0].split('=')[0]; kinds[kk] = kinds.get(kk, 0) + 1
     t0 = time.time()
     # sanitizer build, per-case time limit and address-space limit: a crash, a hang or an allocation storm is an outcome
     (cres, cown, cerr), (mres, mown, merr) = harness.run_both(cases, work, shared=shared, flavor='asan',
